@@ -575,6 +575,7 @@ func (d *decodeState) error(msg string) *SyntaxError {
 
 func isIntegerType(c byte) bool {
 	return isFloatType(c) ||
+		c == 'I' || c == 'i' ||
 		c == 'B' || c == 'b' ||
 		c == 's' || c == 'S' ||
 		c == 'L' || c == 'l'
